@@ -9,7 +9,8 @@ LEVEL = "exploration"
 RULE = ("every valid member of every family (Hill/Shekel 0..999, Grishagin 1..100, GKLS 2..5 x 1..100, Shekel4 1..3, Rastrigin/XSquared 1..12 and 16, 31, 32, 33, 64, 100, StronginC3: 2540 instances, "
         "all of them in both tiers) is constructed and its public fields audited; for all 2 x 1000 Hill/Shekel table rows the real Calculate is tied to the documented "
         "closed form at seeded points and the table's minimum, maximum (value and location) and Lipschitz constant are recomputed from a dense grid + bounded polish of the "
-        "closed form and of its derivative. Non-trivial: every instance; distinct = family member.")
+        "closed form and of its derivative. Non-trivial: every instance; distinct = family member."
+       " Every fourth instance is audited again after use (iterations + SetBounds on the solver's evolvent, Solve with console listener, Solve with refinement, both): declared bounds unchanged.")
 ASSUMPTIONS = ["table lookup is by role and tolerant of the naming slip in the Shekel module (maxShekel / lConstantShekel tried first, then maxHill / lConstantHill)",
                "extrema of the closed forms located on a 20001-point grid and polished by bounded scalar minimisation; tolerance as stated in the property (1e-4 values, 1e-4 of the range for locations, 0.1% constants)",
                "when two extrema are equal within the value tolerance either location is accepted"]
